@@ -367,6 +367,8 @@ func (its *jsonPrimitive) String() string {
 func (its *jsonPrimitive) createJSONTypeFromReflectValue(parent jsonType, rv reflect.Value, ts *model.Timestamp) jsonType {
 	kind := rv.Kind()
 	switch kind {
+	case reflect.Invalid: // nil: there is no JSON value to store
+		return nil
 	case reflect.Struct:
 		toMap, err := utils.StructToMap(rv.Interface())
 		if err != nil {
@@ -379,6 +381,9 @@ func (its *jsonPrimitive) createJSONTypeFromReflectValue(parent jsonType, rv ref
 	case reflect.Slice, reflect.Array:
 		return its.createJSONArray(parent, rv.Interface(), ts)
 	case reflect.Ptr, reflect.Interface:
+		if rv.IsNil() {
+			return nil
+		}
 		ptrVal := rv.Elem()
 		return its.createJSONTypeFromReflectValue(parent, ptrVal, ts)
 	default:
